@@ -149,8 +149,45 @@ impl Enc<'_> {
         if !self.k.non_data_packets {
             return (false, 0);
         }
-        match self.ch.choose(&format!("extra-packet-{pos}"), 8) {
+        match self.ch.choose(&format!("extra-packet-{pos}"), 9) {
             0 => (false, 0),
+            8 => {
+                // a run of packets that complete no point: index, ignored, empty data, ... (10 packets)
+                self.notes.push(format!("run of 10 packets without point data {pos}"));
+                let start = self.log.len();
+                let n = self.cur_streams;
+                for k in 0..10 {
+                    match k % 3 {
+                        0 => {
+                            self.log.extend_from_slice(&[0, 0]);
+                            self.log.extend_from_slice(&le16(32 - 1));
+                            self.log.extend_from_slice(&le16(1));
+                            self.log.push(0);
+                            self.log.extend_from_slice(&[0u8; 9]);
+                            self.log.extend_from_slice(&0u64.to_le_bytes());
+                            self.log.extend_from_slice(&0u64.to_le_bytes());
+                        }
+                        1 => {
+                            let len = [4usize, 12, 8][(k / 3) % 3];
+                            self.log.extend_from_slice(&[2, 0]);
+                            self.log.extend_from_slice(&le16(len - 1));
+                            for _ in 4..len {
+                                self.log.push(0xEE);
+                            }
+                        }
+                        _ => {
+                            let len = (6 + 2 * n + 3) / 4 * 4;
+                            self.log.extend_from_slice(&[1, 0]);
+                            self.log.extend_from_slice(&le16(len - 1));
+                            self.log.extend_from_slice(&le16(n));
+                            for _ in 6..len {
+                                self.log.push(0);
+                            }
+                        }
+                    }
+                }
+                (true, self.log.len() - start)
+            }
             7 => {
                 // a data packet in which every byte stream is empty (legal: it completes no point)
                 let n = self.cur_streams;
@@ -571,11 +608,18 @@ impl X<'_> {
             Ty::F32 { min, max } => {
                 attrs.push(("type", "Float".into()));
                 attrs.push(("precision", "single".into()));
+                // a long decimal just inside the rounding interval of the value: it still denotes
+                // this f32, but parsing it as f64 first and narrowing afterwards rounds twice
+                let long = self.proto_attrs && (min.is_some() || max.is_some()) && self.ch.choose(&format!("cloud{ci}-rec{ri}-long-decimal-limits"), 2) == 1;
+                if long {
+                    self.notes.push(format!("cloud {ci} record {ri}: single precision limits spelt as long decimals beside the rounding midpoint"));
+                }
+                let spell = |m: f32| if long { near_midpoint_decimal(m) } else { format!("{m}") };
                 if let Some(m) = min {
-                    attrs.push(("minimum", format!("{m}")));
+                    attrs.push(("minimum", spell(*m)));
                 }
                 if let Some(m) = max {
-                    attrs.push(("maximum", format!("{m}")));
+                    attrs.push(("maximum", spell(*m)));
                 }
             }
             Ty::F64 { min, max } => {
@@ -629,6 +673,31 @@ impl X<'_> {
             self.close(&name);
         }
         self.pfx = saved;
+    }
+}
+
+/// A decimal string that lies a hair inside the rounding interval of `v` (towards the neighbour of
+/// smaller magnitude): the exact midpoint of `v` and that neighbour, which is exactly representable
+/// as f64, with one more non-zero digit appended. Correctly rounded to f32 it is `v`.
+pub fn near_midpoint_decimal(v: f32) -> String {
+    if !v.is_finite() || v == 0.0 || v.abs() <= f32::MIN_POSITIVE {
+        return format!("{v}");
+    }
+    let a = v.abs();
+    let below = f32::from_bits(a.to_bits() - 1);
+    let mid = (a as f64 + below as f64) / 2.0; // exact in f64
+    let mut digits = format!("{mid:.200}");
+    while digits.ends_with('0') {
+        digits.pop();
+    }
+    if !digits.contains('.') {
+        digits.push('.');
+    }
+    digits.push_str("0000001");
+    if v < 0.0 {
+        format!("-{digits}")
+    } else {
+        digits
     }
 }
 
